@@ -56,6 +56,15 @@ SPECS = {
                + [{"entry": e, "label": "%s.r1.l%d.c%d.f%d" % (e, l, c, fl), "fix": {"roots": 1, "levels": l, "children#0": c, "filter": fl}, "tiers": (["quick", "thorough"] if l == 0 and c == 1 else ["thorough"])} for e in ("vh_c20_sections", "vh_c20_sources") for l in range(2) for c in range(3) for fl in range(4)]
                + [{"entry": "vh_c20_backrefs", "label": "vh_c20_backrefs.m%d.a%d" % (m, a), "fix": {"md#0": m, "md#1": a}} for m in range(3) for a in range(3)]
                + [{"entry": "vh_c20_inherited", "label": "vh_c20_inherited.l%d" % l, "fix": {"link": l}} for l in range(2)]}]},
+ "C18": {
+  "explanation": "Arithmetic: the real util::getSIScaling / isScalable / splitUnit / isSIUnit bodies are executed for every pair of the 21 prefixes (incl. none) x the 31 base units x 5 powers: factor = 10^(power*(exp_a-exp_b)) (relative 1e-12), reciprocity, composition through a third unit, symmetry of scalability, rejection of other base units / powers / non-SI units, and repeatability of the answers within one process. Transparency: on a 4x3 array with a sampled axis in ms and a range axis in uV, tags, and slices, given in s/V, ms/uV, ms/mV and without units (numerically rescaled, binary-exact values) must select the same elements or fail alike, for 7x5 positions, 4x3 extents, absent extents and both RangeMatch modes; wrong base units are refused.",
+  "bounds": {"prefix_pairs": "21 x 21", "base_units": "all 31 of util.cpp UNITS (quick: every base unit with one of the powers '', ^2, ^-1, and V, s, Hz, m with all five)", "powers": ["", "^2", "^-1", "^3", "^-3"], "retrieval": "fixed 4x3 array, position/extent menus (binary-exact values)"},
+  "outside": ["the unit grammar: which strings are SI units and how they split (boost::regex + locale facets have no tractable encoding; a hand-written matcher of the same expressions stands in)", "compound units", "scaling factors below 1 in retrieval (inexact in binary floating point by nature)", "symbolic positions (C05/C06/C17 decide the glue for all positions)"],
+  "assumptions": ["unit grammar (boost::regex) replaced by a hand-written matcher of the same expressions", "libhdf5 replaced by h5model", "pow() evaluated by the host libm on concrete arguments", "contract index kernels (harness/tagging.hpp)"],
+  "level_text": "Bounded verification by exhaustive execution of the real code over a finite domain (every prefix pair; menus of binary-exact positions): the engine explores every choice, all values are concrete so the solver's part is trivial. Nothing is claimed about the unit grammar itself.",
+  "harnesses": [{"file": "C18_units.cpp", "defines": {"quick": ["-DVH_MAXEXT=12"], "thorough": ["-DVH_MAXEXT=12"]},
+     "entries": [{"entry": "vh_c18_scaling", "label": "vh_c18_scaling.b%d.p%d" % (bs, pw), "fix": {"base": bs, "power": pw}, "tiers": (["quick", "thorough"] if pw == (bs % 3) or bs < 4 else ["thorough"])} for bs in range(31) for pw in range(5)]
+               + [{"entry": "vh_c18_transparent", "label": "vh_c18_transparent.x%d.m%d.p%d" % (x, m, p), "fix": {"extent": x, "match": m, "p0": p}} for x in range(2) for m in range(2) for p in range(7)]}]},
  "C01": {
   "explanation": "Full stack on the HDF5 model for 10 numeric element types plus Bool and String: bounded histories of hyperslab writes (offset/count inside, touching and crossing the edge), appends along each axis, extent changes (grow/shrink) and sub-region reads with symbolic element values, compared with a dense reference array after every step and after reopen; reads as other numeric types; calibration polynomial/origin in the exact regime (integer-valued doubles) with raw reads unaffected; kernel checks of applyPolynomial (arbitrary doubles, order-independent facts) and guessChunking.",
   "bounds": {"quick": {"history_steps": 2, "rank": "1..2", "extent": "<= 3 per axis (4 after append)", "values": "symbolic, full range of the type", "polynomial": "degree <= 2, |coef| < 1024, |x|,|origin| < 256"},
